@@ -7,11 +7,17 @@ RACE_ASSUMPTIONS = [
     "step (a scheduling point the model does not expect, or a missing one, is a mismatch), so the atomicity of "
     "API calls with respect to completion processing is no longer assumed for the race theorems: it is derived "
     "from the per-operation mutex, the submission lock and the blocked-futures mutex as modelled",
-    "OpRace simplifications: single-shot operations with one completion each (no multishot, no zero-copy "
-    "notification, no result values, hence no EINTR/ECANCELED re-issue loop), Ring::poll with a zero timeout in "
-    "the default ring mode, nobody calls SubmissionQueue::wake, ring counters abstracted to ghost counters and FIFO "
-    "lists (their mechanics are C04/C05), the completion queue never overflows; kernel K1, K2, K4 with "
-    "auto-completion (what the driver uses) or completion at any later time (theorems only)",
+    "OpRace kinds: single-shot, multishot (result queue, every completion wakes, stream end) and two-step "
+    "(zero-copy send: result with F_MORE, then notification) operations with result values and ghost ledgers of "
+    "posted / dispatched / handed-out results; simplifications: NO restarts (the EINTR/ECANCELED re-issue loop and "
+    "error results of live operations are not modelled: the driver scripts non-negative results, -ECANCELED only "
+    "reaches dropped operations), Ring::poll with a zero timeout in the default ring mode, nobody calls "
+    "SubmissionQueue::wake, ring counters abstracted to ghost counters and FIFO lists (their mechanics are "
+    "C04/C05), the completion queue never overflows; kernel K1, K2, K4: auto-completion (one completion, result 7, "
+    "when consumed) or a script per request (any list of completions: result, F_MORE, F_NOTIF) posted one per "
+    "kernel step while the request is in flight, nothing after a completion without F_MORE; a winning "
+    "ASYNC_CANCEL posts one final -ECANCELED also for a two-step request (the simulated kernel's non-strict "
+    "cancellation; Linux posts result + notification)",
     "OpRace API usage (progs_ok): an operation is used by one thread and dropping it is its last call "
     "(Rust's ownership rules); the blocked-futures mutex is never held across a scheduling point (true of the "
     "code as replayed: the model has no holder for it and would see an unexpected LOCK_SPIN)",
@@ -61,16 +67,28 @@ PROPS = {
         run_fn="run_racecase",
         theorems=[],
         rule="one splitmix64 stream per case (VERIF_SEED, index): ring with 1, 2 or 4 submission slots on the simulated "
-             "auto-completing kernel (random 32-bit start counters), 2..5 heap-buffer writes owned by 1 or 2 future "
-             "threads, a ring thread making 1..4 Ring::poll(0) calls; future threads run 2..4 rounds: poll when never "
-             "polled or woken, re-poll unwoken with a fresh waker (0/20/50 %), drop mid-race (none/25/66 %), drop "
-             "after Ready; random schedule with preemption probability 10..60 % per hook-B point over 400 decisions; "
-             "then the ring alone (futures + 2 + parked wakers polls; oracle: every pending future's latest waker "
-             "was invoked), the remaining futures dropped, two more polls, the ring dropped (oracle: every started "
-             "state freed exactly once, no double free, at most one cancel per dropped operation); the executed "
-             "interleaving (all four phases) is replayed on Model/OpRace.v: per segment the hook-point code, poll "
-             "results, wake-ups in order, consumed submissions, frees; non-trivial = at least one preemption; "
-             "distinct by the Coq case term",
+             "kernel (random 32-bit start counters), 2..5 operations owned by 1 or 2 future threads; one case in five "
+             "uses the auto-completing kernel with heap-buffer writes only, the others mix writes, multishot accepts "
+             "(0..4 results with F_MORE, two times in three a final one; results = unique fake descriptors) and "
+             "zero-copy sends (result with F_MORE + notification; 1 in 8 a single completion), cancellation winning "
+             "or losing per operation, completions posted by a KERNEL THREAD under the scheduler (one scripted "
+             "completion of a request in flight per step = the model's K events); a ring thread making 1..5 "
+             "Ring::poll(0) calls; future threads run 2..4 rounds: poll when never polled or woken, ask a stream for "
+             "its next item, re-poll unwoken with the same or a fresh waker (0/20/50 %), drop mid-race "
+             "(none/25/66 %), drop after Ready / end of stream; random schedule with preemption probability "
+             "10..60 % per hook-B point over 500 decisions; then a few more kernel steps and the ring alone "
+             "(futures + 2 + parked wakers polls; oracle: every pending future that is READY - final completion "
+             "posted; stream: a posted result not handed out - or parked has had its latest waker invoked since "
+             "its last poll), a SECOND race (woken futures polled again while more completions are posted and "
+             "dispatched), the kernel finishing the scripts, the ring alone and the oracle again, the remaining "
+             "futures dropped, two polls, the kernel, two polls, the ring dropped (oracles: every started state "
+             "freed exactly once, no double free, no state freed while the kernel has the request in flight, at "
+             "most one cancel per dropped operation; every value handed out is the next result the kernel posted "
+             "for that very request, a single-shot / two-step operation resolves after its final completion with "
+             "its first non-notification result, a stream ends once after everything posted was handed out); the "
+             "executed interleaving (all phases) is replayed on Model/OpRace.v: per segment the hook-point code, "
+             "poll results with values, wake-ups in order, consumed submissions, frees; non-trivial = at least "
+             "one preemption; distinct by the Coq case term",
         assumptions=RACE_ASSUMPTIONS,
         trusted=RACE_TRUSTED + ["simulated kernel harness/src/simk.rs", "tracking allocator harness/src/alloc.rs",
                                 "a10 verif hooks A/B"],
@@ -409,8 +427,11 @@ PROPS = {
     "C01": _ops_entry("C01", ["C01_inflight_implies_allocated", "C01_addresses_stable",
                               "C01_reachable_states_well_formed"], "drops and completions"),
     "C02": _ops_entry("C02", ["C02_outputs_refine_kernel_script", "C02_single_result_is_the_only_result",
-                              "C02_single_resolves_once", "C02_single_keeps_last_result_refuted"],
-                      "completions and polls"),
+                              "C02_single_resolves_once", "C02_single_keeps_last_result_refuted",
+                              "C02_race_results_are_own_in_order", "C02_race_stream_order_c02a_refuted"],
+                      "completions and polls",
+                      extra=dict(also_drivers=["C03R"], assumptions=RACE_ASSUMPTIONS, trusted=RACE_TRUSTED,
+                                 model=" + Model/OpRace.v (small-step race, replayed by driver C03R)")),
     "C03": _ops_entry("C03", ["C03_readying_completion_wakes_latest_waker", "C03_queue_full_waiter_is_parked",
                               "C03_end_of_poll_wakes_parked", "C03_parked_only_if_queue_full_refuted",
                               "C03_race_readying_completion_wakes_latest_waker", "C03_race_parked_waker_is_woken",
@@ -420,7 +441,8 @@ PROPS = {
                                  model=" + Model/OpRace.v (small-step race, replayed by driver C03R)")),
     "C06": _ops_entry("C06", ["C06_drop_cancels_exactly_it", "C06_cancel_targets_only_dropped",
                               "C06_state_freed_at_most_once", "C06_dropped_state_is_reclaimed",
-                              "C06_race_state_reclaimed_exactly_once", "C06_race_reclaimed_c06a_leaks"], "drops",
+                              "C06_race_state_reclaimed_exactly_once", "C06_race_reclaimed_c06a_leaks",
+                              "C06_race_two_step_c06b_freed_early"], "drops",
                       extra=dict(also_drivers=["C03R"], assumptions=RACE_ASSUMPTIONS, trusted=RACE_TRUSTED,
                                  model=" + Model/OpRace.v (small-step race, replayed by driver C03R)")),
     "C05": dict(
@@ -746,7 +768,7 @@ PROPS = {
 # other property's model, same verdict rules).
 # C02: an operation receives its own result only if the completion entry it is read from is not
 # given back to the kernel first (the completion-ring mechanics of C05: seed C02-c).
-PROPS["C02"]["also_drivers"] = ["C05"]
+PROPS["C02"]["also_drivers"] = PROPS["C02"].get("also_drivers", []) + ["C05"]
 # C14: the skipping and counting wrappers (SkipBuf, ReadNBuf) are private to the crate; the only
 # way to drive the real ones is through write_all / read_n and their relatives, i.e. C10's driver
 # (seed C14-c: the counting wrapper missed a transfer of 0 bytes).
